@@ -193,6 +193,18 @@ class Closure:
         self.this = this
 
 
+class Placeholder:
+    def __init__(self, i):
+        self.i = i
+
+
+class BoundFn:
+    """std::bind(target, bound...): target is ("fn", key) or another callable value; bound values may be Placeholders."""
+    def __init__(self, target, bound):
+        self.target = target
+        self.bound = bound
+
+
 class StreamVal:
     """ostream/ostringstream modelled as a list of appended tokens."""
     def __init__(self):
@@ -319,6 +331,8 @@ class Interp:
         self.depth = 0
         self.cur_line = 0
         self.prefix_hooks = [(k[:-1], v) for k, v in self.hooks.items() if k.endswith("*")]
+        self.vhooks = {}        # callee qualified name -> python callable(interp, receiver, [argument values]); also reached
+                                # through std::bind / std::function / for_each, where no call node exists
         self.bounded = set()    # symbols assumed far smaller in magnitude than DBL_MAX
         self.positive = set()   # symbols assumed strictly positive (weights, scales)
         self.subs = []          # linear equalities learnt on this path: (variable, replacement polynomial)
@@ -1267,6 +1281,41 @@ class Interp:
             return r.v
         return None
 
+    def call_value(self, fv, argvals):
+        """Call a function VALUE (closure, std::bind result, function / member pointer, functor object) on argument values."""
+        if isinstance(fv, Closure):
+            return self.call_closure(fv, argvals)
+        if isinstance(fv, BoundFn):
+            actual = [argvals[b.i - 1] if isinstance(b, Placeholder) else b for b in fv.bound]
+            return self.call_value(fv.target, actual)
+        if isinstance(fv, tuple) and len(fv) == 2 and fv[0] == "fn":
+            fn = self.prog.by_key.get(fv[1])
+            if fn is None:
+                raise Unsupported("call through pointer to unknown function %s" % fv[1])
+            vals = [a.get() if hasattr(a, "get") and not isinstance(a, (Obj, Vec)) else a for a in argvals]
+            recv = None
+            if fn.cls:
+                recv, argvals, vals = vals[0], argvals[1:], vals[1:]
+            vh = self.vhooks.get(fn.q)
+            if vh is not None:
+                return vh(self, recv, vals)
+            if fn.body is None:
+                raise Unsupported("no body for %s" % fv[1])
+            return self.call(fn, recv, None, None, arg_values=argvals)
+        if isinstance(fv, Obj):
+            fn = self._functor_op(fv.cls)
+            if fn is not None:
+                return self.call(fn, fv, None, None, arg_values=argvals)
+        raise Unsupported("call of function value %r" % (fv,))
+
+    def _functor_op(self, cls):
+        cache = self.__dict__.setdefault("_functor_cache", {})
+        if cls not in cache:
+            pfx = cls + "::operator()"
+            cands = [f for k, f in self.prog.by_key.items() if k.startswith(pfx + "(") and f.body is not None]
+            cache[cls] = cands[0] if len(cands) == 1 else None
+        return cache[cls]
+
     def e_CallExpr(self, n, env):
         return self.ev_call(n, env)
 
@@ -1290,6 +1339,8 @@ class Interp:
             fv = self.ev(ch[0], env)
             if isinstance(fv, Closure):
                 return self.call_closure(fv, [self.bind_ref(a, env) for a in ch[1:]])
+            if isinstance(fv, (BoundFn, tuple)):
+                return self.call_value(fv, [self.ev(a, env) for a in ch[1:]])
             raise Unsupported("unresolved call at line %s" % n.get("l"))
         hook = self.hooks.get(cname)
         if hook is None and self.prefix_hooks:
@@ -1299,6 +1350,13 @@ class Interp:
                     break
         if hook is not None:
             return hook(self, n, env)
+        vh = self.vhooks.get(cname) if self.vhooks else None
+        if vh is not None:
+            if k == "CXXMemberCallExpr":
+                me = _strip(ch[0])
+                recv = self.ev(me["ch"][0], env)
+                return vh(self, recv, [self.ev(a, env) for a in ch[1:]])
+            return vh(self, None, [self.ev(a, env) for a in ch[1:]])
         # ---- assertions
         if cname in ("__assert_fail", "__assert"):
             raise AssertFail("line %s" % n.get("l"))
@@ -1435,6 +1493,10 @@ class Interp:
                 return Iter(recv, 0)
             if meth in ("end", "cend"):
                 return Iter(recv, len(recv.items))
+            if meth in ("rbegin", "crbegin"):
+                return Iter(Vec(list(reversed(recv.items)), recv.elem), 0)        # read-only reverse view
+            if meth in ("rend", "crend"):
+                return Iter(Vec(list(reversed(recv.items)), recv.elem), len(recv.items))
         if isinstance(recv, MapVal):
             if meth == "at":
                 k = self.ev(args[0], env)
@@ -1503,6 +1565,14 @@ class Interp:
                 return None
             if meth in ("count", "insert") and args:
                 v = self.ev(args[0], env)
+                key_t = _first_targ(cname[:cname.rfind("::")]) if "<" in cname else ""
+                if isinstance(v, Obj) and (key_t or "").replace("const", "").strip().endswith("*"):
+                    # a set of pointers: membership by identity (the comparator only orders them)
+                    if meth == "count":
+                        return 1 if any(e is v for e in recv.items) else 0
+                    if not any(e is v for e in recv.items):
+                        recv.items.add(v)
+                    return None
                 if isinstance(v, Obj):
                     # record elements: equivalence is defined by the class's own operator<
                     lt = [f for f in self.prog.fns(v.cls + "::operator<")] if hasattr(self.prog, "fns") else []
@@ -1541,6 +1611,8 @@ class Interp:
         raise Unsupported("std member %s on %r" % (cname, recv))
 
     def std_operator(self, n, op, cname, args, env, want_ref):
+        if op == "()" and (cname.startswith("std::function<") or cname.startswith("std::_Bind<")):
+            return self.call_value(self.ev(args[0], env), [self.ev(a, env) for a in args[1:]])
         if "shared_ptr" in cname:
             if op in ("->", "*"):
                 return self.ev(args[0], env)
@@ -1586,6 +1658,11 @@ class Interp:
                     return Iter(a.v, a.i + (b if op == "+" else -b))
                 if isinstance(a, Iter) and isinstance(b, Iter) and op == "-":
                     return a.i - b.i
+            if op == "=":
+                ref = self.lv(args[0], env)
+                v_ = self.ev(args[1], env)
+                ref.set(Iter(v_.v, v_.i) if isinstance(v_, Iter) else v_)
+                return ref if want_ref else ref.get()
             raise Unsupported("iterator operator %s" % op)
         if op == "[]":
             b = self.lv(args[0], env).get() if _strip(args[0]).get("lv") else self.ev(args[0], env)
@@ -1685,6 +1762,22 @@ class Interp:
             return False
         if nm in ("move", "forward"):
             return self.ev(args[0], env)
+        if nm == "bind" and args:
+            bound = []
+            for a in args[1:]:
+                sa = _strip(a)
+                if sa.get("k") == "DeclRefExpr" and str(sa.get("ref", "")).startswith("std::placeholders::_"):
+                    bound.append(Placeholder(int(sa["ref"].rsplit("_", 1)[1])))
+                else:
+                    bound.append(self.ev(a, env))
+            return BoundFn(self.ev(args[0], env), bound)
+        if nm == "for_each" and len(args) == 3:
+            b, e = self.ev(args[0], env), self.ev(args[1], env)
+            f = self.ev(args[2], env)
+            if isinstance(b, Iter) and isinstance(e, Iter) and b.v is e.v and isinstance(b.v, Vec):
+                for x in list(b.v.items[b.i:e.i]):
+                    self.call_value(f, [x])
+                return f
         if nm in ("make_pair",):
             o = Obj("std::pair")
             o.f["first"] = self.ev(args[0], env)
